@@ -235,9 +235,9 @@ def blossom(P, ts):
 
 @kernel('C13', funcs=['cu2qu/cu2qu.py:split_cubic_into_n_iter', 'cu2qu/cu2qu.py:split_cubic_into_two', 'cu2qu/cu2qu.py:split_cubic_into_three', 'cu2qu/cu2qu.py:_split_cubic_into_n_gen',
                       'cu2qu/cu2qu.py:calc_cubic_points', 'cu2qu/cu2qu.py:calc_cubic_parameters'],
-        bounds='ALL cubics (8 symbolic real coordinates), n in {2, 3, 4, 6} (thorough also 8, 12; n = 5, 7 are left out: the code derives 1/n^2 and 1/n^3 in double arithmetic, where the R-float rule that a constant denotes the rational it was written as no longer holds exactly): piece k of the subdivision has exactly the control points given by the polar form '
+        bounds='ALL cubics (8 symbolic real coordinates), n in {2, 3, 4, 6} (thorough also 8; n = 5, 7, 12 are left out: the code derives 1/n^2 and 1/n^3 in double arithmetic, where the R-float rule that a constant denotes the rational it was written as no longer holds exactly): piece k of the subdivision has exactly the control points given by the polar form '
                '(blossom) of the input on [k/n, (k+1)/n]; consecutive pieces share their end points; calc_cubic_points inverts calc_cubic_parameters',
-        shims=['complex over reals'], quick=[dict(n=n) for n in (2, 3, 4, 6)], thorough=[dict(n=n) for n in (2, 3, 4, 6, 8, 12)])
+        shims=['complex over reals'], quick=[dict(n=n) for n in (2, 3, 4, 6)], thorough=[dict(n=n) for n in (2, 3, 4, 6, 8)])
 def subdivision_exact(n):
     from fractions import Fraction as Fr
     P = [C('p%d' % i) for i in range(4)]
